@@ -19,7 +19,7 @@ import (
 
 // c16RunH3 runs the real requestWriter.writeHeaders into a buffer, checks the HEADERS frame
 // envelope and decodes the payload with the reference QPACK decoder (arrival order).
-func c16RunH3(tc *verifh.C01FieldCase) (fields [][2]string, err error, perr string) {
+func c16RunH3(w *requestWriter, tc *verifh.C01FieldCase) (fields [][2]string, err error, perr string) {
 	u, e := url.Parse(tc.RawURL)
 	if e != nil {
 		return nil, e, "bad-url"
@@ -32,7 +32,6 @@ func c16RunH3(tc *verifh.C01FieldCase) (fields [][2]string, err error, perr stri
 			req.Body = io.NopCloser(strings.NewReader("x"))
 		}
 	}
-	w := newRequestWriter()
 	var buf bytes.Buffer
 	p, bad := verifh.Safely(func() {
 		err = w.writeHeaders(&buf, req, tc.Gzip, nil)
@@ -77,9 +76,28 @@ func c16H3ErrKind(err error) string {
 
 func c16LaneH3(t *testing.T, s *verifh.Session, profile string, n int, need map[string]int) {
 	r := s.Rand()
+	// sequences of 1..16 requests share one requestWriter (one per connection in the client): its
+	// QPACK encoder and header buffer must carry nothing over from a previous — possibly refused —
+	// request
+	var w *requestWriter
+	var prev *verifh.C01FieldCase
+	left := 0
 	for i := 0; i < n; i++ {
-		tc := verifh.C01GenFieldCase(r, profile)
-		fields, err, perr := c16RunH3(tc)
+		if left == 0 {
+			w = newRequestWriter()
+			prev = nil
+			left = 1 + r.Intn(16)
+		}
+		left--
+		var tc *verifh.C01FieldCase
+		if prev != nil && r.Intn(3) != 0 {
+			tc = verifh.C01MutateFieldCase(r, prev)
+		} else {
+			tc = verifh.C01GenFieldCase(r, profile)
+		}
+		tc.Limit = 0
+		prev = tc
+		fields, err, perr := c16RunH3(w, tc)
 		human := fmt.Sprintf("h3 %q %q host=%q hdr=%q cl=%d body=%v/%v gzip=%v", tc.Method, tc.RawURL, tc.Host, tc.Header, tc.CL, tc.HasBody, tc.NoBody, tc.Gzip)
 		if perr != "" {
 			s.Crash(human, human, perr, "")
